@@ -235,6 +235,29 @@ static void scenario(const std::string &file, const std::string &text, bool stri
     std::string id = fresh->assignId(model->componentCount() > 0 ? model->component(0) : nullptr);
     observe(fresh.get(), "assignId(no model)");
     explained(id.empty(), fresh.get(), "assignId", file);
+    {
+        // assignments and indexed lookups that must fail: an item of another model, a variable that no component owns, an
+        // index beyond the items that carry the identifier
+        auto other = Model::create("other");
+        auto foreign = Component::create("foreign");
+        other->addComponent(foreign);
+        std::string f1 = annotator->assignId(foreign);
+        observe(annotator.get(), "assignId(component of another model)");
+        explained(f1.empty(), annotator.get(), "assignId(foreign component)", file);
+        auto orphan = Variable::create("orphan");
+        std::string f2 = annotator->assignId(orphan);
+        observe(annotator.get(), "assignId(orphan variable)");
+        explained(f2.empty(), annotator.get(), "assignId(orphan variable)", file);
+        auto all = annotator->ids();
+        if (!all.empty()) {
+            auto far = annotator->item(all[0], annotator->itemCount(all[0]) + 2);
+            observe(annotator.get(), "annotator.item(id, index out of range)");
+            explained(far == nullptr || far->type() == CellmlElementType::UNDEFINED, annotator.get(), "annotator.item(id, index)", file);
+            auto farc = annotator->component(all[0], annotator->itemCount(all[0]) + 1);
+            observe(annotator.get(), "annotator.component(id, index out of range)");
+            explained(farc == nullptr, annotator.get(), "annotator.component(id, index)", file);
+        }
+    }
     for (auto *l : std::vector<Logger *>{parser.get(), validator.get(), importer.get(), printer.get(), analyser.get(), annotator.get(), fresh.get()}) forget(l);
 }
 
